@@ -3,8 +3,8 @@ CONSTANTS
   Mutant = "staticmemo"
   PathAtoms = {97, 98, 47, 37}
   BodyAtoms = {97, 34, 92}
-  MaxLenName = 3
-  MaxLenBody = 2
+  MaxLenName = 2
+  MaxLenBody = 1
   MaxSteps = 3
   MaxUpload = 6
   SniffLen = 2
